@@ -112,6 +112,17 @@ Fixpoint match_sorted (ok : Q * Q -> Z * Z -> bool) (obs : list (Z * Z)) (ws : l
   end.
 Definition spec_tw (sr : Q) (ws : list (Q * Q)) (obs : list (Z * Z)) : bool := match_sorted (valid_conv sr) obs ws.
 
+(* decimal stream (round 4): begins / lengths / rate are arbitrary binary64 numbers, the product is rounded before it is
+   rounded to an integer, so an exact product within win_tol of a half-way point / of an integer may go either way:
+   begin within 1/2 + win_tol of the exact product, length L with  L <= l * sr + win_tol  and  l * sr - win_tol < L + 1.
+   ProofsGrid.conv64_within_tolerance: the float computation meets this for products up to 2^22. *)
+Definition win_tol : Q := 1 # (2 ^ 30).
+Definition valid_conv_tol (sr : Q) (w : Q * Q) (o : Z * Z) : bool :=
+  Qle_bool (Qabs (inject_Z (fst o) - fst w * sr)) ((1 # 2) + win_tol)
+  && Qle_bool (inject_Z (snd o)) (snd w * sr + win_tol)
+  && negb (Qle_bool (inject_Z (snd o) + 1) (snd w * sr - win_tol)).
+Definition spec_tw_tol (sr : Q) (ws : list (Q * Q)) (obs : list (Z * Z)) : bool := match_sorted (valid_conv_tol sr) obs ws.
+
 (* ------------------------------------------------------------------------------------------------------------ *)
 (* shrink_overlapping_windows *)
 Fixpoint adjacent {A} (l : list A) : list (A * A) :=
